@@ -647,6 +647,41 @@ func (m *a8Model) boundedUncached(v ssa.Value, at *ssa.BasicBlock, side int) boo
 		return m.paramBounded(x, side)
 	case *ssa.Extract:
 		if call, ok := x.Tuple.(*ssa.Call); ok {
+			// a companion `ok` result that this use is guarded by (`w, ok := parse(…); if !ok { return }; use(w)`): only
+			// the returns on which ok can be true count
+			okIdx := -1
+			for _, r := range referrers(call) {
+				e2, isEx := r.(*ssa.Extract)
+				if !isEx || e2 == x {
+					continue
+				}
+				if bt, isB := e2.Type().Underlying().(*types.Basic); !isB || bt.Kind() != types.Bool {
+					continue
+				}
+				for b := at; b != nil && b.Idom() != nil; b = b.Idom() {
+					d := b.Idom()
+					ifi, isIf := d.Instrs[len(d.Instrs)-1].(*ssa.If)
+					if !isIf {
+						continue
+					}
+					cond, neg := ifi.Cond, false
+					for {
+						u, isU := cond.(*ssa.UnOp)
+						if !isU || u.Op != token.NOT {
+							break
+						}
+						cond, neg = u.X, !neg
+					}
+					if cond != ssa.Value(e2) {
+						continue
+					}
+					for i, s := range d.Succs {
+						if (s == b || s.Dominates(b)) && len(s.Preds) == 1 && ((i == 0) != neg) {
+							okIdx = e2.Index
+						}
+					}
+				}
+			}
 			okAll, n := true, 0
 			for _, g := range m.c.CalleesData(call) {
 				if !m.c.InPkg(g) || len(g.Blocks) == 0 {
@@ -655,6 +690,9 @@ func (m *a8Model) boundedUncached(v ssa.Value, at *ssa.BasicBlock, side int) boo
 				n++
 				for _, b := range g.Blocks {
 					if ret, ok := b.Instrs[len(b.Instrs)-1].(*ssa.Return); ok && x.Index < len(ret.Results) {
+						if okIdx >= 0 && okIdx < len(ret.Results) && !mayBeTrueAt(ret.Results[okIdx], b) {
+							continue // a failure return: the caller does not use the value
+						}
 						if !m.bounded(ret.Results[x.Index], b, side) {
 							okAll = false
 						}
@@ -697,6 +735,45 @@ func (m *a8Model) boundedUncached(v ssa.Value, at *ssa.BasicBlock, side int) boo
 		return okAll && n > 0
 	case *ssa.Field:
 		return m.fieldBounded(fieldOf(x), side)
+	}
+	return false
+}
+
+// mayBeTrueAt: the boolean v (a constant, a merge of constants, or a named result read at the return in block b) can be
+// true there. For a named result: some store of a value other than the constant false can reach b.
+func mayBeTrueAt(v ssa.Value, b *ssa.BasicBlock) bool {
+	for _, leaf := range phiLeaves(v, map[ssa.Value]bool{}) {
+		if k, ok := leaf.(*ssa.Const); ok && k.Value != nil {
+			if k.Value.String() == "true" {
+				return true
+			}
+			continue
+		}
+		u, ok := leaf.(*ssa.UnOp)
+		if !ok || u.Op != token.MUL {
+			return true
+		}
+		al, ok := u.X.(*ssa.Alloc)
+		if !ok {
+			return true
+		}
+		for _, r := range referrers(al) {
+			st, ok := r.(*ssa.Store)
+			if !ok || st.Addr != ssa.Value(al) {
+				if _, isLoad := r.(*ssa.UnOp); !isLoad {
+					if _, isSt := r.(*ssa.Store); !isSt {
+						return true // escapes
+					}
+				}
+				continue
+			}
+			if k, isC := st.Val.(*ssa.Const); isC && k.Value != nil && k.Value.String() == "false" {
+				continue
+			}
+			if st.Block() == b || reachableFrom(st.Block(), nil)[b] {
+				return true
+			}
+		}
 	}
 	return false
 }
